@@ -30,3 +30,67 @@ package ptrify
 //@   induct n
 //@   requires 0 <= a && a < n && keeps(t, a)
 //@   ensures retained(t, a) < retained(t, n)
+
+// Config types are not recursive: a finite rank that decreases along struct-field and pointer edges
+// (a precondition on the user's type: Pointerify recurses along exactly these edges).
+//@ fun srank(t RType) int
+//@ axiom nonrecursive_config_types_rank_nonneg: forall t RType :: {srank(t)} srank(t) >= 0
+//@ axiom nonrecursive_config_types_fields: forall t RType, i int :: {srank(fType(t, i))} kind(t) == Struct && 0 <= i && i < numField(t) ==> srank(fType(t, i)) < srank(t)
+//@ axiom nonrecursive_config_types_pointers: forall t RType :: {srank(elem(t))} kind(t) == Ptr ==> srank(elem(t)) < srank(t)
+
+// ptrShape(T, P): P has one field per retained field of T, in order, with the same name.
+//@ def ptrShape(t RType, p RType) bool = kind(p) == Struct && numField(p) == retained(t, numField(t))
+//@      && (forall k int :: {fName(t, k)} 0 <= k && k < numField(t) && keeps(t, k) ==> fName(p, retained(t, k)) == fName(t, k))
+
+// scope of C01: no interface-typed fields anywhere in the config type
+//@ fun c01Scope(t RType) bool
+//@ axiom c01Scope_fields: forall t RType, i int :: {c01Scope(t), fType(t, i)} c01Scope(t) && kind(t) == Struct && 0 <= i && i < numField(t) ==>
+//@      kind(fType(t, i)) != Interface && c01Scope(fType(t, i))
+//@ axiom c01Scope_pointers: forall t RType :: {c01Scope(elem(t))} c01Scope(t) && kind(t) == Ptr ==> c01Scope(elem(t))
+
+//@ func ptrify.IsTextUnmarshalerStruct(t) (r)
+//@   props C01
+//@   safety C16
+//@   requires t != nil
+//@   requires wf_package_initialised: global("textUnmarshaler") != nil && kind(global("textUnmarshaler")) == Interface
+//@   ensures r ==> kind(t) == Struct
+
+//@ func ptrify.pointerifyField(originalField, tmplFieldVal) (sf)
+//@   props C01
+//@   safety C16
+//@   requires originalField.Type != nil
+//@   requires C01_scope_no_interface_fields: kind(originalField.Type) != Interface && c01Scope(originalField.Type)
+//@   requires valid(tmplFieldVal) ==> vtype(tmplFieldVal) == originalField.Type
+//@   requires wf_package_initialised: global("textUnmarshaler") != nil && kind(global("textUnmarshaler")) == Interface
+//@   decreases srank(originalField.Type), 1
+//@   ensures C01_dropped_iff_chan_or_func: sf == nil <==> (kind(originalField.Type) == Chan || kind(originalField.Type) == Func)
+//@   ensures C01_kept_field_keeps_its_name: sf != nil ==> sf.Name == originalField.Name && sf.Type != nil
+
+//@ func ptrify.Pointerify(original, tmpl) (r)
+//@   props C01
+//@   safety C16
+//@   requires original != nil && kind(original) == Struct
+//@   requires valid(tmpl) ==> vtype(tmpl) == original
+//@   requires C01_scope_no_interface_fields: c01Scope(original)
+//@   requires wf_package_initialised: global("textUnmarshaler") != nil && kind(global("textUnmarshaler")) == Interface
+//@   decreases srank(original), 0
+//@   loop 0:
+//@     invariant 0 <= i && i <= numField(original) && fresh(newFields.arr)
+//@     invariant C01_one_output_field_per_retained_field: len(newFields) == retained(original, i)
+//@     invariant C01_output_field_names: forall k int :: {fName(original, k)} 0 <= k && k < i && keeps(original, k) ==>
+//@          newFields[retained(original, k)].Name == fName(original, k)
+//@     invariant forall j int :: {newFields[j].Name} 0 <= j && j < len(newFields) ==> isExported(newFields[j].Name) && newFields[j].Type != nil
+//@     invariant C01_output_names_distinct: forall a int, b int :: 0 <= a && a < b && b < len(newFields) ==> newFields[a].Name != newFields[b].Name
+//@     invariant C01_output_names_differ_from_unvisited: forall a int, k int :: 0 <= a && a < len(newFields) && i <= k && k < numField(original) ==>
+//@          newFields[a].Name != fName(original, k)
+//@   ensures C01_result_field_count: r != nil && kind(r) == Struct && numField(r) == retained(original, numField(original))
+//@   ensures C01_result_field_names: forall k int :: {fName(original, k)} 0 <= k && k < numField(original) && keeps(original, k) ==>
+//@        fName(r, retained(original, k)) == fName(original, k)
+
+// every output position below retained(t, n) is the image of exactly one retained input field
+//@ fun keptIdx(t RType, j int) int
+//@ lemma retained_onto(t RType, n int, j int)
+//@   props C01
+//@   induct n
+//@   requires n >= 0 && 0 <= j && j < retained(t, n)
+//@   ensures exists k int :: 0 <= k && k < n && keeps(t, k) && retained(t, k) == j
